@@ -11,7 +11,9 @@ Decides, partly by interpreting small pure functions with the checker's evaluato
  * results of execute_multiple are zipped with the very list that was executed;
  * minimisation removes exactly the assertions whose key is not in the kept set and skips
    statements that only carry an exception assertion, as the kill map does.
-Whether kept assertions hold on re-execution (flakiness of the SUT) is not decided.
+ * __remove_non_holding_assertions removes exactly the assertions the verification run flagged as
+   failed or as raising, whatever the combination on one statement.
+Whether the verification run itself observes every violation (flakiness of the SUT) is not decided.
 """
 
 from __future__ import annotations
@@ -33,8 +35,72 @@ def _stmt(n):
     return n
 
 
+class _OSet(list):
+    """insertion-ordered set stand-in for pynguin's OrderedSet"""
+
+    def add(self, x):
+        if x not in self:
+            self.append(x)
+
+    def update(self, xs):
+        for x in xs:
+            self.add(x)
+
+
+class _RepStatement:
+    def __init__(self, assertions):
+        self.assertions = list(assertions)
+
+
+class _RepTest:
+    def __init__(self, stmts):
+        self._stmts = stmts
+
+    def statements(self):
+        return list(self._stmts)
+
+
+class _RepVerification:
+    def __init__(self, failed, error):
+        self.failed, self.error = failed, error
+
+
+class _RepResult:
+    def __init__(self, failed, error):
+        self.assertion_verification_trace = _RepVerification(failed, error)
+
+
+def _non_holding(ctx, repo) -> None:
+    """Interpret __remove_non_holding_assertions over every combination of (failed, error) position
+    sets for a statement with three assertions, next to an untouched statement."""
+    fn = repo.func(AG, "AssertionGenerator.__remove_non_holding_assertions")
+    ctx.analysed(fn)
+    subsets = [(), (0,), (2,), (0, 1), (0, 1, 2)]
+    for failed in subsets:
+        for error in subsets:
+            if set(failed) & set(error):
+                continue
+            names = ["a0", "a1", "a2"]
+            first, second, third = _RepStatement(["keep"]), _RepStatement(names), _RepStatement(["b0", "b1"])
+            fmap = {1: set(failed)} if failed else {}
+            emap = {1: set(error)} if error else {}
+            emap[2] = {1}
+            label = f"[failed={list(failed)} error={list(error)}]"
+            it = peval.Interp(resolver=peval.repo_resolver(repo), native_types=(_RepStatement, _RepTest, _RepVerification, _RepResult), externs={"OrderedSet": lambda x=(): _OSet(x)})
+            try:
+                it.run_function(fn, [_RepTest([first, second, third]), _RepResult(fmap, emap)], {}, repo.module(AG))
+            except (peval.Undecided, peval.Raises) as exc:
+                ctx.undecide("C21.non-holding", fn, f"{label} {exc}")
+                continue
+            want = [n for i, n in enumerate(names) if i not in failed and i not in error]
+            ok = second.assertions == want and first.assertions == ["keep"] and third.assertions == ["b0"]
+            ctx.check("C21.non-holding", fn, ok, f"{label}: after the verification run flagged these positions of a statement with assertions {names}, it keeps {second.assertions} (expected {want}); neighbours keep {first.assertions} / {third.assertions} (expected ['keep'] / ['b0']): an assertion that did not hold on the unmutated module stays on the test case, or one that held is dropped", what=f"{label} exactly the flagged assertions are removed", stmt=label)
+
+
 def check(ctx) -> None:
     repo = ctx.repo
+    ctx.rule("C21.non-holding", "ABSINT: __remove_non_holding_assertions, interpreted over every disjoint combination of failed / erroring positions, removes exactly the flagged assertions of each statement", floor=13)
+    _non_holding(ctx, repo)
     ctx.rule("C21.partition", "ABSINT: get_survived / get_killed / get_timeout partition the mutants for all 4 states of (killed_by, timed_out_by); get_metrics counts them; get_score = killed / (created - timeout) in [0, 1], 1.0 when nothing was checked", floor=30)
     ctx.rule("C21.select", "ABSINT: for every kill map over 3 assertions x 3 mutants the selection keeps only assertions with a non-empty kill set and preserves the union of killed mutants", floor=500)
     ctx.rule("C21.violated", "was_violated counts failed and error; every reader of a verification trace in the mutation analysis counts both kinds (through was_violated or by reading both maps)", floor=5)
